@@ -438,6 +438,109 @@ func (g *gen) where(depth int) string {
 
 func (g *gen) whereParen(depth int) string { return "(" + g.where(depth) + ")" }
 
+// Doc pragmas. What follows `//doc:<pragma>` is the author's text: any amount of any white space in front of, behind and
+// inside it, or nothing at all; a pragma may be repeated (the last one wins). Every spelling of the tags line is used in
+// turn (docSeq counts the groups of the run), the other pragmas are drawn at random.
+var docTagLines = []string{
+	"//doc:tags    style experimental",
+	"//doc:tags style  experimental",
+	"//doc:tags\tstyle\t\texperimental",
+	"//doc:tags",
+	"//doc:tags   ",
+	"//doc:tags diagnostic",
+	"//doc:tags  a  b   c    d     e ",
+	"//doc:tags style\u00a0experimental\u3000opinionated",
+	"//doc:tags \t style \t ",
+	"//doc:tagsglued to the pragma",
+	"//doc:tags style experimental\n//doc:tags",
+	"//doc:tags\n//doc:tags  performance  ",
+}
+
+var docValueTexts = []string{
+	" summary %d \"q\" `b`", "", "   ", "  two  spaces   inside %d ", "\ttabbed\ttext\t", " f(1, 2)", "   g(1)", "    see https://example.com/?a=b&c=d",
+	" \u00a0nbsp at both ends\u00a0", "x", " %% 100% {{.}} $x",
+}
+
+var docSeq int
+
+func docText(t string, gi int) string {
+	if strings.Contains(t, "%d") {
+		return fmt.Sprintf(t, gi)
+	}
+	return strings.ReplaceAll(t, "%%", "%")
+}
+
+func (g *gen) docPragmas(gi int) string {
+	docSeq++
+	if docSeq%4 == 3 && g.rng.Intn(2) == 0 {
+		return "" // a group without documentation
+	}
+	var lines []string
+	for _, pragma := range []string{"summary", "before", "after", "note"} {
+		switch g.rng.Intn(4) {
+		case 0:
+			continue
+		case 1:
+			// the pragma twice
+			lines = append(lines, "//doc:"+pragma+docText(docValueTexts[g.rng.Intn(len(docValueTexts))], gi))
+		}
+		lines = append(lines, "//doc:"+pragma+docText(docValueTexts[g.rng.Intn(len(docValueTexts))], gi))
+	}
+	tags := docTagLines[docSeq%len(docTagLines)]
+	at := g.rng.Intn(len(lines) + 1)
+	lines = append(lines[:at], append([]string{tags}, lines[at:]...)...)
+	return strings.Join(lines, "\n") + "\n"
+}
+
+// Rules files whose custom declarations contain NO function: types, constants, variables only -- in every combination --
+// named by the filters (Implements("gorules.T"), HasMethod("gorules.T.M"), constants as operands). Nothing is compiled for
+// such a file, yet its types must be found the same way from source and from IR.
+func (g *gen) declRulesFile(id int) string {
+	var sb strings.Builder
+	sb.WriteString("package " + pkgClause(id+5) + "\n\nimport \"github.com/quasilyte/go-ruleguard/dsl\"\n\n")
+	variant := id % 6
+	hasType := variant != 2
+	if hasType {
+		if variant == 3 {
+			sb.WriteString("type (\n\tlocalIface interface{ String() string }\n\tlocalOther interface {\n\t\tError() string\n\t}\n)\n\n")
+		} else {
+			sb.WriteString("type localIface interface{ String() string }\n\n")
+		}
+	}
+	switch variant {
+	case 1, 2:
+		sb.WriteString("const limitD = 31\n\n")
+	case 4:
+		sb.WriteString("const (\n\tlimitD = 31\n\tnameD  = \"aa\"\n)\n\n")
+	default:
+		sb.WriteString("const limitD = 32\n\n")
+	}
+	if variant == 2 || variant == 4 {
+		sb.WriteString("var tagD = \"t\"\n\n")
+	}
+	if variant == 5 {
+		// the control: the same declarations next to a custom function
+		sb.WriteString("func isStr(ctx *dsl.VarFilterContext) bool {\n\treturn ctx.Type.String() == \"string\"\n}\n\n")
+	}
+	sb.WriteString(g.docPragmas(id))
+	fmt.Fprintf(&sb, "func decl%d(m dsl.Matcher) {\n", id)
+	if hasType {
+		fmt.Fprintf(&sb, "\tm.Match(`k($x, $y)`).Where(m[\"y\"].Type.Implements(`gorules.localIface`)).Report(`decl %d: $y implements the local interface`)\n", id)
+		fmt.Fprintf(&sb, "\tm.Match(`k($x, $y)`).Where(m[\"x\"].Type.HasMethod(`gorules.localIface.String`) || m[\"y\"].Type.HasMethod(\"gorules.localIface.String\")).Report(`decl %d: $x or $y has the method`)\n", id)
+		fmt.Fprintf(&sb, "\tm.Match(`f($x, $y)`).Where(!m[\"x\"].Type.Implements(\"gorules.localIface\") && m[\"x\"].Value.Int() >= limitD).Report(`decl %d: $x at least the limit`)\n", id)
+	}
+	if variant == 3 {
+		fmt.Fprintf(&sb, "\tm.Match(`f($x, $y)`).Where(m[\"x\"].Type.Implements(`gorules.localOther`) || m[\"y\"].Type.HasMethod(`gorules.localOther.Error`)).Report(`decl %d: an error by another name`)\n", id)
+	}
+	if variant == 5 {
+		fmt.Fprintf(&sb, "\tm.Match(`f($x, $y)`).Where(m[\"x\"].Filter(isStr)).Report(`decl %d: a string $x`)\n", id)
+	}
+	fmt.Fprintf(&sb, "\tm.Match(`g($x)`).Where(m[\"x\"].Value.Int() == limitD).Report(`decl %d: the limit`)\n", id)
+	fmt.Fprintf(&sb, "\tm.Match(`h($x, $y, $*_)`).Where(m[\"x\"].Value.Int() > limitD-1 || m[\"y\"].Value.Int() > limitD).Report(`decl %d: h near the limit`)\n", id)
+	sb.WriteString("}\n\n")
+	return sb.String()
+}
+
 // The package clause of a rules file is the author's business: Engine.Load type-checks every rules file as package
 // "gorules" whatever it declares, and the custom functions of a file (Filter(fn) / Do(fn)) are compiled, registered and
 // looked up under that one name. Every generated file declares the next name of this pool.
@@ -476,12 +579,7 @@ func (g *gen) rulesFile(id int) string {
 	ng := 1 + g.rng.Intn(4)
 	pats := []string{"f($x, $y)", "$x + $y", "h($x, $y, $*_)", "$x == $y", "if $x != $y { $*_ }", "$x.m($y)", "f($y, $x)", "$x - $y", "$x * $y"}
 	for gi := 0; gi < ng; gi++ {
-		if g.rng.Intn(2) == 0 {
-			fmt.Fprintf(&sb, "//doc:summary summary %d \"q\" `b`\n//doc:before  f(1, 2)\n//doc:after   g(1)\n//doc:tags    style experimental\n", gi)
-			if g.rng.Intn(2) == 0 {
-				sb.WriteString("//doc:note    see https://example.com/?a=b&c=d\n")
-			}
-		}
+		sb.WriteString(g.docPragmas(gi))
 		fmt.Fprintf(&sb, "func group%d_%d(m dsl.Matcher) {\n", id, gi)
 		if g.rng.Intn(3) == 0 {
 			sb.WriteString("\tm.Import(\"example.com/chk\")\n")
@@ -659,6 +757,60 @@ type Case struct {
 	ToolDiffers string `json:"tool_differs,omitempty"` // the tool's output vs irprint.File(irconv.ConvertFile(...)) in this process
 	// the IR that Load converts internally (convertAST with the engine's importer) vs the stand-alone conversion
 	EngineConvDiffers string `json:"engine_conv_differs,omitempty"`
+	// the first zero-valued element of a list in the value (printed RuleGroups part only; CustomDecls / BundleImports are
+	// written by explicit loops), "" if there is none
+	ZeroElem string `json:"zero_elem,omitempty"`
+	// rules-file cases: number of function declarations among the CustomDecls (-1: none at all)
+	FuncDecls int `json:"func_decls"`
+}
+
+// zeroElem: the path of the first zero-valued element of a (non-nil) slice inside v. The reflective printer writes
+// nothing for a zero value, list elements included; the IR a rules file converts to must not contain one.
+func zeroElem(v reflect.Value, path string) string {
+	switch v.Kind() {
+	case reflect.Struct:
+		for i := 0; i < v.NumField(); i++ {
+			if p := zeroElem(v.Field(i), path+"."+v.Type().Field(i).Name); p != "" {
+				return p
+			}
+		}
+	case reflect.Slice:
+		for i := 0; i < v.Len(); i++ {
+			p := fmt.Sprintf("%s[%d]", path, i)
+			if v.Index(i).IsZero() {
+				return p
+			}
+			if q := zeroElem(v.Index(i), p); q != "" {
+				return q
+			}
+		}
+	case reflect.Interface:
+		if !v.IsNil() {
+			return zeroElem(v.Elem(), path)
+		}
+	}
+	return ""
+}
+
+// funcDecls: number of function declarations among the custom declarations of a converted file (-1: no declarations)
+func funcDecls(f *ir.File) int {
+	if len(f.CustomDecls) == 0 {
+		return -1
+	}
+	n := 0
+	for _, d := range f.CustomDecls {
+		fs := token.NewFileSet()
+		pf, err := parser.ParseFile(fs, "decl.go", "package p\n"+d, 0)
+		if err != nil {
+			continue
+		}
+		for _, dd := range pf.Decls {
+			if _, ok := dd.(*ast.FuncDecl); ok {
+				n++
+			}
+		}
+	}
+	return n
 }
 
 func collectOps(f *ir.File) []int {
@@ -954,6 +1106,21 @@ func main() {
 		}
 		items = append(items, it)
 	}
+	// rules files that declare types / constants / variables and no custom function
+	ndecl := 6
+	for i := 0; i < ndecl; i++ {
+		p := filepath.Join(rulesDir, fmt.Sprintf("decl%d.go", i))
+		src := g.declRulesFile(i)
+		os.WriteFile(p, []byte(src), 0o644)
+		f, err := convertRules(p, []byte(src))
+		it := item{kind: "generated", name: fmt.Sprintf("decl%d", i), rulesPath: p}
+		if err != nil {
+			it.convErr = err.Error()
+		} else {
+			it.f = f
+		}
+		items = append(items, it)
+	}
 	// rules files with bundle imports (prefix != package path, empty prefix)
 	bundleSrcs := []string{
 		"package lintbundle\n\nimport (\n\t\"github.com/quasilyte/go-ruleguard/dsl\"\n\trb1 \"example.com/rb1\"\n)\n\nfunc init() {\n\tdsl.ImportRules(\"pfx\", rb1.Bundle)\n}\n\nfunc notConst(ctx *dsl.VarFilterContext) bool {\n\treturn ctx.Type.String() != \"untyped int\"\n}\n\nfunc local(m dsl.Matcher) {\n\tm.Match(`g($x)`).Where(m[\"x\"].Filter(notConst)).Report(`local $x`)\n}\n",
@@ -1022,6 +1189,11 @@ func main() {
 			continue
 		}
 		c.Val = encVal(reflect.ValueOf(*it.f))
+		c.ZeroElem = zeroElem(reflect.ValueOf(it.f.RuleGroups), "RuleGroups")
+		c.FuncDecls = -1
+		if it.rulesPath != "" {
+			c.FuncDecls = funcDecls(it.f)
+		}
 		c.Ops = collectOps(it.f)
 		c.NGroups = len(it.f.RuleGroups)
 		func() {
